@@ -15,7 +15,10 @@ pub enum Op {
     /// `request(buffered * num / 4 + add)`
     Request { num: u8, add: u16 },
     RequestByte,
-    RequestByteAt(u16),
+    /// `request_byte_at_offset(k)`; replays written with small offsets stay valid.
+    RequestByteAt(u64),
+    /// `request(usize::MAX - back)`: reads to the end, returns what there is.
+    RequestHuge(u16),
     RequestMore,
     /// `advance(n)` with `n = frac * (buffered + 1) >> 16` (always within the buffered data).
     Advance(u16),
@@ -314,6 +317,7 @@ pub fn run_history(h: &History, which: Oracles, prop: &str) -> Result<RunStats, 
         let req_n = match op {
             Op::Request { num, add } => buffered * (*num as usize) / 4 + *add as usize,
             Op::RequestByteAt(k) => *k as usize,
+            Op::RequestHuge(back) => usize::MAX - *back as usize,
             Op::ScanDigits(off) | Op::ScanNextNewline(off) => (*off as usize) % (buffered + 2),
             _ => 0,
         };
@@ -322,7 +326,7 @@ pub fn run_history(h: &History, which: Oracles, prop: &str) -> Result<RunStats, 
             continue;
         }
         let called = catch_unwind(AssertUnwindSafe(|| match op {
-            Op::Request { .. } => R::Bytes(reader.request(req_n).to_vec()),
+            Op::Request { .. } | Op::RequestHuge(_) => R::Bytes(reader.request(req_n).to_vec()),
             Op::RequestByte => R::Byte(reader.request_byte()),
             Op::RequestByteAt(_) => R::Byte(reader.request_byte_at_offset(req_n)),
             Op::RequestMore => R::Flag(reader.request_more()),
@@ -400,7 +404,7 @@ pub fn run_history(h: &History, which: Oracles, prop: &str) -> Result<RunStats, 
 
         // ---- check phase ----
         match (op, result) {
-            (Op::Request { .. }, R::Bytes(got)) => {
+            (Op::Request { .. } | Op::RequestHuge(_), R::Bytes(got)) => {
                 let n = req_n;
                 requested = Some(n);
                 let l = log.borrow();
@@ -421,10 +425,11 @@ pub fn run_history(h: &History, which: Oracles, prop: &str) -> Result<RunStats, 
             }
             (Op::RequestByte | Op::RequestByteAt(_), R::Byte(got)) => {
                 let k = req_n;
-                requested = Some(k + 1);
+                requested = Some(k.saturating_add(1));
                 let l = log.borrow();
                 if which.window {
-                    let want = s.get(m.pos + k).copied().filter(|_| m.pos + k < l.delivered - base);
+                    let at = m.pos.checked_add(k);
+                    let want = at.and_then(|a| s.get(a).copied().filter(|_| a < l.delivered - base));
                     match (got, want) {
                         (Some(a), Some(b)) if a == b => {}
                         (None, _) if l.terminal_returned && reader.buf_len() <= k => {}
@@ -434,8 +439,8 @@ pub fn run_history(h: &History, which: Oracles, prop: &str) -> Result<RunStats, 
                             i,
                             op,
                             got,
-                            m.pos + k,
-                            s.get(m.pos + k),
+                            m.pos as u128 + k as u128,
+                            at.and_then(|a| s.get(a)),
                             l.delivered,
                             l.terminal_returned
                         ),
@@ -576,6 +581,7 @@ pub fn run_history(h: &History, which: Oracles, prop: &str) -> Result<RunStats, 
             if !matches!(
                 op,
                 Op::Request { .. }
+                    | Op::RequestHuge(_)
                     | Op::RequestByte
                     | Op::RequestByteAt(_)
                     | Op::RequestMore
@@ -613,7 +619,13 @@ pub fn op_strategy(hostile: bool) -> BoxedStrategy<Op> {
     let base = prop_oneof![
         4 => (0u8..=8, 0u16..=40).prop_map(|(num, add)| Op::Request { num, add }),
         2 => Just(Op::RequestByte),
-        3 => (0u16..=80).prop_map(Op::RequestByteAt),
+        3 => (0u64..=80).prop_map(Op::RequestByteAt),
+        1 => prop_oneof![
+            (0u64..=3).prop_map(|b| Op::RequestByteAt(u64::MAX - b)),
+            Just(Op::RequestByteAt(1 << 63)),
+            Just(Op::RequestByteAt(1 << 32)),
+            (0u16..=3).prop_map(Op::RequestHuge),
+        ],
         2 => Just(Op::RequestMore),
         5 => any::<u16>().prop_map(Op::Advance),
         2 => Just(Op::Advance(u16::MAX)),
